@@ -1,6 +1,180 @@
 package main
 
-// tryReplay: run the real function on the inputs of a solver model (adapters added per function).
-func tryReplay(e *Engine, o *Obligation, dir string) (bool, string) {
-	return false, "no replay adapter for " + o.Func
+// Replay of solver counterexamples on the real code.
+//
+// Supported: safety obligations (index, slice, make, nil, division, map assignment, explicit panic,
+// unsafe width, type assertion) of functions whose parameters are byte slices / strings / integers /
+// booleans and, optionally, a *Session (a minimal established session is built by a helper that is
+// injected together with the test through `go test -overlay`; nothing is written to the repository).
+// The model's values (slice lengths, the first 32 bytes of every byte-slice parameter, integers) are
+// turned into Go literals and the real function is called under recover().
+
+import (
+	"context"
+	"encoding/json"
+	"fmt"
+	"go/types"
+	"os"
+	"os/exec"
+	"path/filepath"
+	"strconv"
+	"strings"
+	"time"
+
+	"golang.org/x/tools/go/ssa"
+)
+
+var safetyKinds = map[string]bool{"index": true, "slice": true, "make": true, "nil": true, "div": true, "nilmap": true, "panic": true, "typeassert": true}
+
+const replayHelpers = `
+func verifReplaySession() *Session {
+	conf := DefaultConfig()
+	conf.LogOutput = io.Discard
+	s := &Session{config: conf, logger: newLogger("replay", io.Discard), streams: map[uint32]*Stream{},
+		sendCh: make(chan sendReady, 64), notifyContinueWriteCh: make(chan struct{}, 1), shutdownCh: make(chan struct{}),
+		communicationVersion: 3, dispatcher: defaultDispatcher}
+	s.queueManager = &queueManager{sendQueue: createQueue(8), recvQueue: createQueue(8)}
+	mem := make([]byte, 1<<20)
+	bm, err := createBufferManager([]*SizePercentPair{{Size: 4096, Percent: 100}}, "", mem, 0)
+	if err != nil {
+		panic("replay helper: " + err.Error())
+	}
+	s.bufferManager = bm
+	return s
 }
+`
+
+func modelInt(m map[string]string, key string) (int64, bool) {
+	v, ok := m[key]
+	if !ok {
+		return 0, false
+	}
+	v = strings.TrimSpace(v)
+	neg := false
+	if strings.HasPrefix(v, "(- ") {
+		neg = true
+		v = strings.TrimSuffix(strings.TrimPrefix(v, "(- "), ")")
+	}
+	n, err := strconv.ParseInt(v, 10, 64)
+	if err != nil {
+		u, err2 := strconv.ParseUint(v, 10, 64)
+		if err2 != nil {
+			return 0, false
+		}
+		n = int64(u)
+	}
+	if neg {
+		n = -n
+	}
+	return n, true
+}
+
+func tryReplay(e *Engine, o *Obligation, dir string) (bool, string) {
+	if !safetyKinds[o.Kind] {
+		return false, "replay is implemented for panic-freedom obligations only; this is a " + o.Kind + " obligation (model attached)"
+	}
+	key := o.Func
+	if i := strings.Index(key, "@"); i > 0 {
+		key = key[:i]
+	}
+	fn := e.funcs[key]
+	if fn == nil || fn.Parent() != nil {
+		return false, "no replay adapter for " + o.Func
+	}
+	var b strings.Builder
+	b.WriteString("package shmipc\n\nimport (\n\t\"fmt\"\n\t\"io\"\n\t\"testing\"\n)\n\nvar _ = io.Discard\n")
+	b.WriteString(replayHelpers)
+	b.WriteString("\nfunc TestVerifReplay(t *testing.T) {\n\tdefer func() {\n\t\tif r := recover(); r != nil {\n\t\t\tfmt.Printf(\"REPLAY-PANIC: %v\\n\", r)\n\t\t} else {\n\t\t\tfmt.Println(\"REPLAY-NO-PANIC\")\n\t\t}\n\t}()\n")
+	var args []string
+	for i, p := range fn.Params {
+		name := fmt.Sprintf("a%d", i)
+		sy := sym("p." + p.Name())
+		switch {
+		case sortOf(p.Type()) == "Slice":
+			isStr := isString(p.Type())
+			if st, ok := p.Type().Underlying().(*types.Slice); ok {
+				if bits, _, ok := intInfo(st.Elem()); !ok || bits != 8 {
+					return false, "no replay adapter: parameter " + p.Name() + " is not a byte slice"
+				}
+			} else if !isStr {
+				return false, "no replay adapter: parameter " + p.Name()
+			}
+			n, ok := modelInt(o.Model, app("s-len", sy))
+			if !ok {
+				n = 0
+			}
+			if n > 1<<20 {
+				return false, fmt.Sprintf("model needs a %d-byte input: not executed", n)
+			}
+			nilSlice := strings.Contains(o.Model[sy], "(mk-slice 0 ")
+			var bytes []string
+			for k := int64(0); k < n && k < 32; k++ {
+				v, _ := modelInt(o.Model, fmt.Sprintf("(select (select M@0 (s-reg %s)) (+ (s-off %s) %d))", sy, sy, k))
+				bytes = append(bytes, fmt.Sprint(v&0xff))
+			}
+			if nilSlice && n == 0 {
+				fmt.Fprintf(&b, "\tvar %s []byte\n", name)
+			} else {
+				fmt.Fprintf(&b, "\t%s := make([]byte, %d)\n\tcopy(%s, []byte{%s})\n", name, n, name, strings.Join(bytes, ", "))
+			}
+			if isStr {
+				args = append(args, "string("+name+")")
+			} else {
+				args = append(args, types.TypeString(p.Type(), func(*types.Package) string { return "" })+"("+name+")")
+			}
+		case isBool(p.Type()):
+			args = append(args, o.Model[sy])
+		default:
+			if _, _, ok := intInfo(p.Type()); ok {
+				n, _ := modelInt(o.Model, sy)
+				args = append(args, fmt.Sprintf("%s(%d)", types.TypeString(p.Type(), func(*types.Package) string { return "" }), n))
+				continue
+			}
+			if pt, ok := p.Type().(*types.Pointer); ok {
+				if nt, ok := pt.Elem().(*types.Named); ok && nt.Obj().Name() == "Session" && nt.Obj().Pkg() == e.tp {
+					fmt.Fprintf(&b, "\t%s := verifReplaySession()\n", name)
+					args = append(args, name)
+					continue
+				}
+			}
+			return false, "no replay adapter: parameter " + p.Name() + " of type " + p.Type().String()
+		}
+	}
+	call := ""
+	if fn.Signature.Recv() != nil {
+		call = fmt.Sprintf("(%s).%s(%s)", args[0], fn.Name(), strings.Join(args[1:], ", "))
+	} else {
+		call = fmt.Sprintf("%s(%s)", fn.Name(), strings.Join(args, ", "))
+	}
+	b.WriteString("\t" + call + "\n}\n")
+	src := b.String()
+	testFile := filepath.Join(dir, "zz_verif_replay_test.go")
+	if err := os.WriteFile(testFile, []byte(src), 0o644); err != nil {
+		return false, err.Error()
+	}
+	ov, _ := json.Marshal(map[string]interface{}{"Replace": map[string]string{filepath.Join(e.repo, "zz_verif_replay_test.go"): testFile}})
+	ovFile := filepath.Join(dir, "overlay.json")
+	os.WriteFile(ovFile, ov, 0o644)
+	ctx, cancel := context.WithTimeout(context.Background(), 180*time.Second)
+	defer cancel()
+	cmd := exec.CommandContext(ctx, "go", "test", "-overlay", ovFile, "-vet=off", "-count=1", "-timeout", "60s", "-run", "^TestVerifReplay$", "-v", ".")
+	cmd.Dir = e.repo
+	cmd.Env = append(os.Environ(), "GOFLAGS=-mod=mod", "GOPROXY=off", "GOSUMDB=off", "GOTOOLCHAIN=local", "SHMIPC_LOG_LEVEL=5")
+	out, _ := cmd.CombinedOutput()
+	res := string(out)
+	detail := "real function called with the model's inputs:\n" + src + "\noutput:\n" + lastLines(res, 12)
+	if strings.Contains(res, "REPLAY-PANIC:") || strings.Contains(res, "panic:") {
+		return true, detail
+	}
+	return false, "the model did not reproduce on the real code (abstraction of heap state in the model)\n" + detail
+}
+
+func lastLines(s string, n int) string {
+	ls := strings.Split(strings.TrimSpace(s), "\n")
+	if len(ls) > n {
+		ls = ls[len(ls)-n:]
+	}
+	return strings.Join(ls, "\n")
+}
+
+var _ = ssa.NaiveForm
